@@ -829,6 +829,34 @@ pub fn one_run(ctx: &Ctx, out: &mut Outcome, run_seed: u64) {
             json!({"property": "C06", "engine": ctx.engine, "run_seed": format!("{:#x}", run_seed), "history_tail": history.iter().rev().take(30).rev().collect::<Vec<_>>()}),
         );
     }
+    // a client-role victim that a hostile packet dropped stays dropped, with its reason, when its transport goes on
+    // calling the per-tick setters (a transport that reports "the link is up" every tick, as the Steam transport does)
+    if role == Side::Client && sim.disconnected(victim, role) {
+        let before = status_of(&sim, victim, role);
+        let poke = watchdog::catch(|| {
+            sim.clients[victim].set_connected();
+            sim.clients[victim].update(std::time::Duration::from_millis(16));
+            let _ = sim.clients[victim].get_packets_to_send();
+            sim.clients[victim].set_connecting();
+        });
+        if let Err(c) = poke {
+            report_later_panic(ctx, out, &sim, &c, run_seed, &history, "set_connected / set_connecting on the dropped client");
+            return;
+        }
+        let after = status_of(&sim, victim, role);
+        out.count("dropped_client_victim_poked_by_its_transport");
+        if after != before {
+            out.violation(
+                ctx,
+                "C06/status/dropped-connection-revived",
+                "the packet is either processed or the affected connection becomes disconnected with a reason (and stays so)",
+                format!("the client dropped by a hostile packet was {:?}; after its transport called set_connected() / set_connecting() again it is {:?}", before, after),
+                json!({"property": "C06", "engine": ctx.engine, "run_seed": format!("{:#x}", run_seed), "role": format!("{:?}", role), "state": state,
+                       "history_tail": history.iter().rev().take(30).rev().collect::<Vec<_>>()}),
+            );
+            return;
+        }
+    }
     // a victim that is still connected keeps working: whatever the hostile slices left behind on its unreliable channel is
     // an incomplete fragment at most, so after more than 3 s without any arrival and a full drain the channel accounts
     // nothing (a reservation that outlives this is lost budget: honest messages are refused for the rest of the session)
